@@ -865,9 +865,11 @@ class ModuleVistor(NodeVisitor):
                         is_classmethod = True
                     elif deco_name == ['staticmethod']:
                         is_staticmethod = True
-                    elif len(deco_name) >= 2 and deco_name[-1] in ('setter', 'deleter'):
+                    elif len(deco_name) >= 2 and deco_name[-1] in ('setter', 'deleter') and \
+                            not isinstance(parent.contents.get(deco_name[-2]), model.Class):
                         # Rename the setter/deleter, so it doesn't replace
-                        # the property object.
+                        # the property object. (When the name designates a nested class, 
+                        # 'x.setter' is a member of that class, not the setter of a property.)
                         func_name = '.'.join(deco_name[-2:])
                 # Determine if the function is decorated with overload
                 if parent.expandName('.'.join(deco_name)) in ('typing.overload', 'typing_extensions.overload'):
